@@ -1834,3 +1834,15 @@ func specShiftOK(in Instruction) bool { return in.Op >= 0 && in.A >= 0 && in.B >
 //@   opt nonnegfields NumReg
 //@   requires a != 0 && a != CurrentFunction ==> int(uint8(b)) < len(vm.fn.Functions) && vm.fn.Functions[uint8(b)] != nil
 //@   ensures[C05] vm.fn != nil ==> specRegsOK(vm, vm.fn)
+
+// escapeBytes writes a []byte in Base64, optionally between double quotes:
+// like every escaper it returns the writer's error when a write fails - also
+// the write of the final partial group that happens in the encoder's Close -
+// and writes nothing after a failure.
+//@ func escapeBytes
+//@   props C13 C05
+//@   opt writerprop C13
+//@   requires !wfailed(w)
+//@   ensures[C13] result != nil ==> wfailed(w) && result == werr(w)
+//@   ensures[C13] result == nil ==> !wfailed(w)
+//@   ensures[C13] wonly(w)
